@@ -540,7 +540,7 @@ def rule_mat(repo, rid='C03.MAT', strict=False):
         for T, is_alg in ((G + 'Type', False), (ALG[G] + 'Type', True)):
             size = 3 if G == 'SO3' else 4
             ci = repo.cls(LT, T)
-            f = repo.find_method(ci, 'matrix')
+            f = __import__('sa.core', fromlist=['x']).ifexp_view(repo.find_method(ci, 'matrix'))
             if f is None:
                 raise AnalysisError('%s: %s has no matrix method' % (rid, T))
             cname = f.qual.split('.')[0]
